@@ -5,6 +5,7 @@ import HLV.Logic.Order
 import HLV.Logic.SoloAcq
 import HLV.Props.C13
 import HLV.Props.HoldFamily
+import HLV.Model.Seq
 namespace HLV
 
 theorem ghostAfter_ro (n : Nat) (ro ro' : RankOpt) (g : HG) (tr : List (Op × Resp)) :
@@ -113,5 +114,26 @@ example :
   refine ⟨rfl, by decide, ?_, ?_, by decide, by decide⟩
   · intro x; by_cases hx : x = 2 <;> simp [busy, hx]
   · intro x; exact ⟨rfl, rfl⟩
+
+/-! ### finding D17, reproduced on the model (the model mirrors the code here)
+
+`hno : noOwned s` in the theorems above is forced by the code: an `OwnedLockCollection` is ONE lock
+for the retrying algorithm, and its `raw_write` takes its members in order, blocking. When the group
+is the member the algorithm waits on, and a later leaf of the group is busy (another thread is in
+the middle of releasing the same group), the thread waits for that leaf while it holds the earlier
+leaves of the group. No cycle can come of it (the members of an owned group are reachable only
+through the group), but the first sentence of C09 is false of it, read leaf by leaf. -/
+
+def d17Ctx : Ctx :=
+  { W := { addr := fun x => 2 * x }, colls := [.retry (.seq [.owned 1 (.seq [.mutex 0, .mutex 1]), .mutex 2])] }
+def d17Prog : List Stmt :=
+  [.get, .ses { coll := 0, api := .lock, mode := .excl, key := .owned, body := [], exit := .drop }]
+/-- leaf 1 (the second member of the owned group) is held by the other thread, leaf 0 is free -/
+def d17Env : Env := { locks := fun x => if x = 1 then { writer := some other } else {} }
+
+-- @theorem C09_finding_D17_owned_group_member_waits_holding : PARTIAL/finding — a retrying collection with an owned group of two leaves as a member: with the second leaf busy, the acquisition takes leaf 0 (blocking), then waits for leaf 1 while holding leaf 0 — the environment has to release leaf 1 before it goes on (recorded as D17; the theorems above exclude owned groups by hypothesis)
+theorem C09_finding_D17_owned_group_member_waits_holding :
+    (((seqRun [] 80 { env := d17Env } (program d17Ctx d17Prog {})).2.trace.reverse.drop 2).take 3) =
+      [.raw .lockX 0 .ok false, .envRel 1, .raw .lockX 1 .ok false] := by decide
 
 end HLV
